@@ -898,3 +898,47 @@ Proof.
   - cbn [step]. now apply poll_car.
   - apply car_nocall, filter_nocall, basic_nocall. now apply step_nonpoll_basic.
 Qed.
+
+(* what the scan means: every Call is directly preceded by PollReady 0 Ok ... PollReady (n-1) Ok *)
+Definition rinv (r : option nat) (done : list obs) : Prop :=
+  match r with Some i => exists d, done = d ++ all_ok_round 0 i | None => True end.
+
+Lemma all_ok_round_S : forall i, all_ok_round 0 (S i) = all_ok_round 0 i ++ [PollReady i ROk].
+Proof. intros. unfold all_ok_round. rewrite seq_S, map_app. reflexivity. Qed.
+
+Lemma car_sound_gen : forall n l r done,
+  rinv r done -> car n r l = true ->
+  forall pre k cid post, l = pre ++ Call k cid :: post ->
+  exists pre', done ++ pre = pre' ++ all_ok_round 0 n.
+Proof.
+  induction l as [|e t IH]; intros r done Hr Hc pre k cid post El.
+  - destruct pre; discriminate.
+  - destruct pre as [|e' pre].
+    + (* this event is the call *)
+      cbn [app] in El. inv El. cbn [car] in Hc. destruct r as [i|]; [|discriminate].
+      apply andb_prop in Hc. destruct Hc as [Hi _]. apply Nat.eqb_eq in Hi. subst i.
+      rewrite app_nil_r. exact Hr.
+    + cbn [app] in El. inv El.
+      assert (K : forall r', rinv r' (done ++ [e']) -> car n r' (pre ++ Call k cid :: post) = true ->
+                  exists pre', done ++ e' :: pre = pre' ++ all_ok_round 0 n).
+      { intros r' Hr' Hc'. destruct (IH r' (done ++ [e']) Hr' Hc' pre k cid post eq_refl) as [p Hp].
+        exists p. rewrite <- Hp. rewrite <- app_assoc. reflexivity. }
+      destruct e'; cbn [car] in Hc; try (apply (K None); [exact I|exact Hc]).
+      * destruct r0; try (apply (K None); [exact I|exact Hc]).
+        eapply K; [|exact Hc].
+        destruct (Nat.eqb k0 0) eqn:E0.
+        -- apply Nat.eqb_eq in E0. subst k0. exists done. reflexivity.
+        -- destruct r as [i|]; [|exact I]. destruct (Nat.eqb i k0) eqn:Ei; [|exact I].
+           apply Nat.eqb_eq in Ei. subst k0. destruct Hr as [d Hd]. subst done.
+           exists d. rewrite all_ok_round_S. now rewrite app_assoc.
+      * destruct r as [i|]; [|discriminate]. apply andb_prop in Hc. destruct Hc as [_ Hc].
+        eapply K; [|exact Hc]. exists (done ++ [Call k0 cid0]). cbn. now rewrite app_nil_r.
+Qed.
+
+Theorem car_sound : forall n l, car n None l = true ->
+  forall pre k cid post, l = pre ++ Call k cid :: post ->
+  exists pre', pre = pre' ++ all_ok_round 0 n.
+Proof.
+  intros n l H pre k cid post El.
+  destruct (car_sound_gen n l None [] I H pre k cid post El) as [p Hp]. exists p. exact Hp.
+Qed.
